@@ -209,7 +209,7 @@ def run(ctx, rep):
         for aj, s in adds:
             # samples_written += pcm_frames
             pass
-        incs = [s for bl in eb.blocks for s in bl["s"] if s["rv"]["r"] == "bin" and s["rv"]["op"].startswith("Add") and "samples_written" in place_fields(op_place(s["rv"]["a"]) or {"p": []})]
+        incs = [s for bl in eb.blocks for s in bl["s"] if s["rv"]["r"] == "bin" and s["rv"]["op"].startswith("Add") and "samples_written" in place_fields(root_place(eb, s["rv"]["a"]) or {"p": []})]
         okinc = len(incs) == 1 and any(k == "call" and callee_name(x).endswith("Frame::pcm_frames") for k, x in _deep(eb, incs[0]["rv"]["b"]))
         rep.check("C09.units", "samples_written advances by the frame's PCM frame count (channel independent)", okinc, loc_of(eb))
         # the counter that measures bytes starts after the metadata: writer is wrapped after write_blocks in Encoder::new
